@@ -1,10 +1,12 @@
 #!/bin/bash
-# tools/import_round2.sh Cxx : copy /tmp/seed2_Cxx/_out/{1,2} to seeded/Cxx_{4,5} and confirm them
+# tools/import_round2.sh Cxx [prefix=seed2] [offset=3] : copy /tmp/<prefix>_Cxx/_out/{1,2} to seeded/Cxx_{offset+1,offset+2} and confirm them
 cd "$(dirname "$0")/.."
 p=$1
+prefix=${2:-seed2}
+off=${3:-3}
 for k in 1 2; do
-  n=$((k+3))
-  src=/tmp/seed2_$p/_out/$k
+  n=$((k+off))
+  src=/tmp/${prefix}_$p/_out/$k
   [ -f $src/patch.diff ] || { echo "$p $k: no patch"; continue; }
   d=seeded/${p}_$n
   mkdir -p $d
